@@ -115,7 +115,69 @@ def defect_names(node):
     return out
 
 
+def fasta_append_rules(ctx, R="R1"):
+    """FastaFile.__setitem__, new header: the entry is recorded as (first line, one past the last line) of exactly the lines that
+    are appended next (shared with C11: set_alignment() stores every row through this path and get_alignment() reads the ranges)"""
+    from ..exprnorm import same_expr
+    f = ctx.src(FASTA).func("FastaFile.__setitem__")
+    ok = False
+    n = 0
+    for blk in [b for node in ast.walk(f) for b in (getattr(node, "body", None), getattr(node, "orelse", None)) if isinstance(b, list)]:
+        for k, st in enumerate(blk):
+            if isinstance(st, ast.Assign) and isinstance(st.targets[0], ast.Subscript) and same_expr(st.targets[0].value, "self._entries") \
+                    and isinstance(st.value, ast.Tuple) and len(st.value.elts) == 2:
+                n += 1
+                nxt = blk[k + 1] if k + 1 < len(blk) else None
+                if isinstance(nxt, ast.AugAssign) and isinstance(nxt.op, ast.Add) and same_expr(nxt.target, "self.lines") and isinstance(nxt.value, ast.Name):
+                    v = nxt.value.id
+                    ok = same_expr(st.value.elts[0], "len(self.lines)") and same_expr(st.value.elts[1], f"len(self.lines) + len({v})")
+    ctx.need(n == 1, "entry range recorded by FastaFile.__setitem__ for a new header")
+    ctx.ob(f"{R}.appended-entry-range", FASTA, "FastaFile.__setitem__", "self._entries[header] = (len(self.lines), len(self.lines) + len(new_lines)); self.lines += new_lines", ok,
+           "the recorded range must cover exactly the lines appended next (computed from that very list, not re-derived from the sequence "
+           "length: a row whose length is a multiple of the line width has no partial last line)", f.lineno)
+
+
+def number_and_wrap_rules(ctx):
+    """(a) wrap_string(), the helper behind the FASTA and FASTQ writers, returns exactly the width-sized slices of the text (none for
+    an empty text: a blank line would be taken for part of the next entry when the file object is re-indexed); (b) numbers of a GFF
+    line are written with str(): the shortest text that reads back as the same float"""
+    from ..exprnorm import same_expr, local_value
+    WRAP = "file.py"
+    w = ctx.src(WRAP).func("wrap_string")
+    rets = [r for r in ast.walk(w) if isinstance(r, ast.Return)]
+    ok = False
+    if len(rets) == 1 and isinstance(rets[0].value, ast.Name):
+        lst = rets[0].value.id
+        inits = [st for st in w.body if isinstance(st, ast.Assign) and same_expr(st.targets[0], lst)]
+        loops = [lp for lp in w.body if isinstance(lp, ast.For) and isinstance(lp.target, ast.Name) and same_expr(lp.iter, "range(0, len(text), width)")]
+        if len(inits) == 1 and isinstance(inits[0].value, ast.List) and not inits[0].value.elts and len(loops) == 1:
+            i_ = loops[0].target.id
+            touching = [b for b in loops[0].body if any(isinstance(x, ast.Name) and x.id == lst for x in ast.walk(b))]
+            ok = len(touching) == 1 and isinstance(touching[0], ast.Expr) and same_expr(touching[0].value, f"{lst}.append(text[{i_}:{i_} + width])") \
+                and not any(isinstance(x, (ast.Break, ast.Continue, ast.Return)) for x in ast.walk(loops[0]))
+        elif len(inits) == 1 and isinstance(inits[0].value, ast.ListComp) and len(inits[0].value.generators) == 1:
+            g_ = inits[0].value.generators[0]
+            ok = isinstance(g_.target, ast.Name) and not g_.ifs and same_expr(g_.iter, "range(0, len(text), width)") \
+                and same_expr(inits[0].value.elt, f"text[{g_.target.id}:{g_.target.id} + width]")
+    elif len(rets) == 1 and isinstance(rets[0].value, ast.ListComp) and len(rets[0].value.generators) == 1:
+        g_ = rets[0].value.generators[0]
+        ok = isinstance(g_.target, ast.Name) and not g_.ifs and same_expr(g_.iter, "range(0, len(text), width)") \
+            and same_expr(rets[0].value.elt, f"text[{g_.target.id}:{g_.target.id} + width]")
+    ctx.ob("R2.wrap-is-the-slices", WRAP, "wrap_string", "[text[i:i + width] for i in range(0, len(text), width)] and no other result", ok,
+           "the lines of a wrapped text are its consecutive width-sized slices - an empty text has none (a special case that returns [text] "
+           "writes a blank line into the file)", w.lineno)
+    cl = ctx.src(GFF).func("GFFFile._create_line")
+    for var in ("score", "phase"):
+        v = local_value(cl, var)
+        ctx.ob("R4.number-text-exact", GFF, "GFFFile._create_line", f"{var} = str({var}) if {var} is not None else '.'",
+               v is not None and (same_expr(v, f"str({var}) if {var} is not None else '.'") or same_expr(v, f"repr({var}) if {var} is not None else '.'")),
+               f"the {var} column is written with str(): every float reads back as the same value (a format such as :g keeps 6 significant "
+               "digits); the code computes " + (ast.unparse(v)[:80] if v is not None else "?"), cl.lineno)
+
+
 def run(ctx):
+    number_and_wrap_rules(ctx)
+    fasta_append_rules(ctx, "R1")
     # ---------------- R1 coupling -----------------------------------------
     n_w = 0
     for cls, (rel, fields, reindexer) in COUPLED.items():
@@ -700,6 +762,11 @@ def run(ctx):
            "inserting a field: the fields from index on must move down by len(new lines)", f.lineno)
 
 MUTANTS = [
+    Mutant("wrap-empty-text-blank-line", "file.py", "    lines = []\n    for i in range(0, len(text), width):\n", "    if len(text) <= width:\n        return [text]\n    lines = []\n    for i in range(0, len(text), width):\n",
+           "R2.wrap-is-the-slices"),
+    Mutant("gff-score-six-digits", GFF, '        score = str(score) if score is not None else "."\n', '        score = f"{score:g}" if score is not None else "."\n', "R4.number-text-exact"),
+    Mutant("fasta-entry-range-from-length", FASTA, "            self._entries[header] = (len(self.lines), len(self.lines) + len(new_lines))\n",
+           "            self._entries[header] = (len(self.lines), len(self.lines) + 2 + len(seq_str) // self._chars_per_line)\n", "R1.appended-entry-range"),
     Mutant("qualifier-splitlines", GBA, '                for val in values.split("\\n"):\n', "                for val in values.splitlines():\n", "R3.qualifier-repeats"),
     Mutant("genbank-shift-parentheses", GB, "        shift = len(inserted_lines) - (old_stop - start)\n", "        shift = len(inserted_lines) - old_stop - start\n", "R5.genbank-shift"),
     Mutant("range-loses-beyond-right", GBA, '            loc_string = loc_first_str + ".." + loc_last_str', '            loc_string = loc_first_str + ".." + str(loc.last)', "R3.range-flags"),
